@@ -65,12 +65,15 @@ B(id, name, cls, parent, initial) ==
 
 SkelObjs(f) ==
   {  B("pk", "pk", "Package", None, "P"),
-     [B("pk.mod", "mod", "Module", "pk", "M") EXCEPT !.xrefs = {"pk.mod.Hid"}, !.sumrefs = {"pk.mod.Hid"}],
+     \* (the EPYTEXT docstring of pk.mod has a section heading "Overview": no reference from the text, an entry in the sidebar)
+     [B("pk.mod", "mod", "Module", "pk", "M") EXCEPT !.xrefs = {"pk.mod.Hid"}, !.sumrefs = {"pk.mod.Hid"},
+          !.locals = {[id |-> "overview", pre |-> FALSE, sec |-> TRUE, ref |-> FALSE]}],
      [B("pk.mod.Base", "Base", "Class", "pk.mod", "B") EXCEPT
           !.subclasses = {"pk.mod.Sub"} \cup (IF f.multi THEN {"m2.K"} ELSE {})],
      [B("pk.mod.Base.meth", "meth", "Function", "pk.mod.Base", "M") EXCEPT
           !.xrefs = {"pk.mod.Base.other", "pk.mod.Base.attr"}, !.sumrefs = {"pk.mod.Base.other"}],
-     B("pk.mod.Base.other", "other", "Function", "pk.mod.Base", "O"),
+     \* other's summary refers to attr: Sub and K show it in their "Inherited from Base" tables
+     [B("pk.mod.Base.other", "other", "Function", "pk.mod.Base", "O") EXCEPT !.xrefs = {"pk.mod.Base.attr"}, !.sumrefs = {"pk.mod.Base.attr"}],
      [B("pk.mod.Base.attr", "attr", "Attribute", "pk.mod.Base", "A") EXCEPT !.annrefs = {"pk.mod.Hid"}],
      [B("pk.mod.Hid", "Hid", "Class", "pk.mod", "H") EXCEPT !.subclasses = {"pk.mod.Sub"}],
      B("pk.mod.Hid.hm", "hm", "Function", "pk.mod.Hid", "H"),
@@ -89,7 +92,9 @@ SkelObjs(f) ==
      \* section "Other notes" (docutils id other-notes), a section "RST markup" and an explicit target "rst-cheatsheet",
      \* whose ids already start with the prefix node2stan gives to every id of a docstring
      [B("pk.cyca", "cyca", "Module", "pk", "C") EXCEPT
-          !.locals = {[id |-> "other-notes", pre |-> FALSE], [id |-> "rst-markup", pre |-> TRUE], [id |-> "rst-cheatsheet", pre |-> TRUE]}],
+          \* sec: a section title (listed in the sidebar's "Contents"), ref: the docstring's own text refers to it
+          !.locals = {[id |-> "other-notes", pre |-> FALSE, sec |-> TRUE, ref |-> TRUE], [id |-> "rst-markup", pre |-> TRUE, sec |-> TRUE, ref |-> TRUE],
+                      [id |-> "rst-cheatsheet", pre |-> TRUE, sec |-> FALSE, ref |-> TRUE]}],
      [B("pk.cyca.CBase", "CBase", "Class", "pk.cyca", "C") EXCEPT !.subclasses = {"pk.cycb.Impl"}],
      B("pk.cyca.CBase.run", "run", "Function", "pk.cyca.CBase", "R"),
      B("pk.cyca.CBase.keep", "keep", "Function", "pk.cyca.CBase", "K"),
@@ -136,7 +141,8 @@ SkelObjs(f) ==
   \cup (IF f.multi THEN    \* a second root: module m2 with a subclass of pk.mod.Base
      { B("m2", "m2", "Module", None, "M"),
        [B("m2.K", "K", "Class", "m2", "K") EXCEPT !.bases = <<"pk.mod.Base">>, !.mro = <<"m2.K", "pk.mod.Base">>],
-       [B("m2.K.other", "other", "Function", "m2.K", "O") EXCEPT !.docsrc = "pk.mod.Base.other"] } ELSE {})
+       [B("m2.K.other", "other", "Function", "m2.K", "O") EXCEPT !.docsrc = "pk.mod.Base.other",
+            !.xrefs = {"pk.mod.Base.attr"}, !.sumrefs = {"pk.mod.Base.attr"}] } ELSE {})
 
 \* objects whose privacy the enumeration varies, with the alternatives to their default
 Alt(v) == CASE v = "pk" -> {"PRIVATE"}
@@ -285,7 +291,7 @@ DocCtx(c) == IF Fx("inherited-docstring-samepage-link") /\ PageOf(Objs[c].docsrc
 \* already starts with it - the SAME rule for the anchor and for the reference, so they keep pointing to each other
 LocalId(t) == IF t.pre THEN t.id ELSE "rst-" \o t.id
 Docstring(p, pf) == {L(pf, TagLink(t, DocCtx(p), pf), "docstring") : t \in Linkable(Objs[p].xrefs)}
-                    \cup {L(pf, [file |-> pf, frag |-> LocalId(t)], "docstring") : t \in Objs[p].locals}
+                    \cup {L(pf, [file |-> pf, frag |-> LocalId(t)], "docstring") : t \in {t \in Objs[p].locals : t.ref}}
 MemberDoc(p, pf) == UNION {{LM(pf, TagLink(t, DocCtx(c), pf), "memberDoc", c) : t \in Linkable(Objs[c].xrefs)} : c \in Methods(p)}
 \* epydoc2stan.py:814 format_summary: switch_context(None) -> always full urls
 SummaryRefs(pg, S) == UNION {{L(pg, Url(t), "summaryDoc") : t \in Linkable(Objs[c].sumrefs)} : c \in S}
@@ -304,6 +310,10 @@ ModuleSeen(p) == ModuleOf(p)
 SideSections(p) == {p} \cup (IF IsMod(p) THEN (IF Objs[p].parent = None THEN {} ELSE {Objs[p].parent}) ELSE {ModuleSeen(p)})
 SideListed(p) == UNION {SideItems(s, 1) : s \in SideSections(p)}
 SidebarTitle(p, pf) == {L(pf, Url(s), "sidebarTitle") : s \in Linkable(SideSections(p))}                      \* sidebar.py:82
+\* sidebar.py:195 docstringToc: the "Contents" of the documented object's own docstring (get_toc builds the entries from the
+\* SAME docutils document the body was rendered from: same ids), unless --sidebar-toc-depth is 0
+TocOn == IF Source = "enum" THEN TRUE ELSE Case.toc
+SidebarToc(p, pf) == IF TocOn THEN {L(pf, [file |-> pf, frag |-> LocalId(t)], "sidebarToc") : t \in {t \in Objs[p].locals : t.sec}} ELSE {}
 SidebarItem(p, pf) == {L(pf, PL(c, p), "sidebarItem") : c \in SideListed(p)}                            \* sidebar.py:379
 
 NavTargets == {"index", "moduleIndex", "classIndex", "nameIndex"}                                     \* nav.html, footer.html
@@ -315,7 +325,7 @@ ObjPageLinks(p) ==
   \cup Subclasses(p, pf) \cup Overrides(p, pf) \cup OverriddenIn(p, pf) \cup HeaderLink(p, pf) \cup InHierarchy(p, pf)
   \cup Docstring(p, pf) \cup MemberDoc(p, pf) \cup Annotation(p, pf)
   \cup SummaryRefs(pf, VisContents(p) \cup (IF IsCls(p) THEN Inherited(p) ELSE {}))
-  \cup SidebarTitle(p, pf) \cup SidebarItem(p, pf) \cup Nav(pf)
+  \cup SidebarTitle(p, pf) \cup SidebarItem(p, pf) \cup SidebarToc(p, pf) \cup Nav(pf)
 
 ObjPageEntries(p) ==
   LET pf == Written(p) IN
@@ -590,8 +600,12 @@ CaseInTree(i) == Case.objs[i].incontents /\ (Case.objs[i].parent = None
 \* an exact match wins over a fnmatch."  For an object named exactly by rules of the list the privacy the manual
 \* promises is that of the LAST such rule, whatever System.privacyClass answered; otherwise (patterns, defaults: C13)
 \* the System's answer is taken.  The property is judged against this expected privacy.
+\* A custom --system-class may override privacyClass(), call super() and adjust the answer (documented customisation): the
+\* harness's AdjustingSystem gives the objects named in Case.custom the privacy listed there, whatever the rules say.
 ExactRules(i) == {k \in DOMAIN Case.rules : Case.rules[k].m = i}
-Expected(i, sys) == IF ExactRules(i) = {} THEN sys
+CustomFor(i)  == {k \in DOMAIN Case.custom : Case.custom[k].m = i}
+Expected(i, sys) == IF CustomFor(i) # {} THEN Case.custom[CHOOSE k \in CustomFor(i) : TRUE].p
+                    ELSE IF ExactRules(i) = {} THEN sys
                     ELSE Case.rules[CHOOSE k \in ExactRules(i) : \A k2 \in ExactRules(i) : k2 <= k].p
 ObsView == [i \in DOMAIN Case.objs |-> LET o == Case.objs[i] IN
               [id |-> i, parent |-> o.parent, priv |-> Expected(i, o.priv), own |-> o.ownpage, file |-> o.file, frag |-> o.frag,
@@ -630,11 +644,13 @@ ModelDiff ==
       urls |-> {i \in Ids \cap DOMAIN Case.objs : Case.objs[i].file # FileOf(i) \/ Case.objs[i].frag # FragOf(i)},
       roots |-> Roots # real.roots]
 FileOut == LET O == ObsView  S == ObsSite IN
-           \* a run limited to --html-subject objects rewrites some pages of an existing output directory: its links to
-           \* pages outside the subjects are not judged (C11), the traces of hidden objects are (C12)
+           \* a run limited to --html-subject objects rewrites some pages of an existing output directory: a link to a page
+           \* this run does not write is not judged, a fragment on a page it does write must exist (C11); the traces of
+           \* hidden objects are judged as always (C12)
            [cid |-> cid, name |-> Case.name,
             verdict |-> IF Case.partial
-                        THEN [Verdict(O, S, ObsMulti) EXCEPT !.LinksResolve = {}, !.VisibleHasPage = {}, !.VisibleMemberHasAnchor = {}]
+                        THEN LET v == Verdict(O, S, ObsMulti) IN
+                             [v EXCEPT !.LinksResolve = {x \in v.LinksResolve : x.file \in S.files}, !.VisibleHasPage = {}, !.VisibleMemberHasAnchor = {}]
                         ELSE Verdict(O, S, ObsMulti),
             diff |-> IF Case.predict THEN Diff(S) ELSE [skipped |-> TRUE],
             modeldiff |-> IF Case.kind = "enum" THEN ModelDiff ELSE [skipped |-> TRUE]]
